@@ -27,7 +27,7 @@ From Coq Require Import NArith ZArith List Bool Arith Lia.
 From Pq Require Import Base.Bytes Base.ListX Codec.Hybrid Thrift.Compact Thrift.Idl Thrift.IdlPinned Format.Phys Format.Meta Format.Page
   Format.ChunkLayout Format.File Format.Enc
   Proofs.ChunkLayoutProofs Proofs.HybridProofs Proofs.FormatCodecProofs Proofs.FormatPageProofs Proofs.FormatChunkProofs
-  Proofs.FormatMetaProofs Proofs.FormatIdlProofs Proofs.FormatFileProofs Proofs.FormatLayoutProofs.
+  Proofs.FormatMetaProofs Proofs.FormatIdlProofs Proofs.FormatFileProofs Proofs.FormatLayoutProofs Proofs.FormatLayoutProofs2.
 Import ListNotations.
 Open Scope list_scope.
 
@@ -165,6 +165,26 @@ Theorem C02_every_table_has_a_layout : forall leaves rgs cb, table_fits leaves r
   table_of (layout_of leaves rgs cb) = Some (map leaf_of_l leaves, rgs).
 Proof. exact every_table_has_a_layout. Qed.
 Print Assumptions C02_every_table_has_a_layout.
+
+(* ... and that canonical layout's pages are well-formed as soon as the values are representable *)
+Theorem C02_canonical_page_wf : forall optional t tlen cells,
+  cells_fit optional cells ->
+  Forall (fun v => value_ok t tlen v = true) (values_of cells) ->
+  lenN (hyb_enc 1 [BP (map level_of cells)]) < 2 ^ 32 ->
+  page_wf {| cd_type := t; cd_tlen := tlen; cd_maxdef := if optional then 1 else 0 |} (plain_page optional cells).
+Proof. exact plain_page_wf. Qed.
+Print Assumptions C02_canonical_page_wf.
+
+(* "for every table": a table that fits its leaves and whose canonical layout is representable is what the
+   specification decoder returns for the bytes the specification encoder writes for it *)
+Theorem C02_every_table_roundtrips :
+  forall (compress : Z -> bytes -> bytes) (decompress : Z -> N -> bytes -> option bytes),
+  (forall codec b, decompress codec (lenN b) (compress codec b) = Some b) ->
+  forall strict leaves rgs cb,
+  table_fits leaves rgs -> lfile_wf compress (layout_of leaves rgs cb) ->
+  dec_file decompress strict (enc_file compress (layout_of leaves rgs cb)) = ROk (map leaf_of_l leaves, rgs).
+Proof. exact every_table_roundtrips. Qed.
+Print Assumptions C02_every_table_roundtrips.
 
 (* decoding alone needs no strictness: a second dictionary page in a chunk, unequal row counts ... *)
 Theorem C02_spec_roundtrip_dec :
